@@ -53,6 +53,13 @@ def _obs_equal(a, b, paths_all):
         return None
     if set(aa) != set(bb) or any(not _val_eq(aa[k], bb[k]) for k in aa):
         return "choices"
+    if "discard" in a and "discard" in b:
+        try:
+            da, db = choices_to_asg(paths_all, a["discard"]), choices_to_asg(paths_all, b["discard"])
+        except ValueError:
+            return "discard"
+        if set(da) != set(db) or any(not _val_eq(da[k], db[k]) for k in da):
+            return "discard"
     return None
 
 
@@ -111,6 +118,18 @@ def _run(node, tier, seed):
             st_res = seam.run_with(f_j, {})[0]
         st = space._mk_state(st_res, args, 0, [dict(op="simulate")])
         ret, R = ref_run(node, args, st.asg)
+        # the same execution built EAGERLY: a trace that never crossed a jit boundary (dict-valued pytrees
+        # are re-ordered by jit), used as the starting point of the eager edits below
+        try:
+            with seam.seam(2):
+                eager_trace = seam.run_with(lambda: prog.gf.simulate(key, cargs), {})
+            # run_with converts leaves to numpy; rebuild jnp leaves WITHOUT flattening through jit
+            eager_trace = None
+            with seam.seam(2):
+                seam._S.table, seam._S.visits, seam._S.branches, seam._S.order = {}, {}, [], []
+                eager_trace = prog.gf.simulate(key, cargs)
+        except Exception:
+            eager_trace = None
         # vmap over keys
         keys = jax.random.split(key, 2)
         try:
@@ -194,8 +213,9 @@ def _run(node, tier, seed):
             for tags in ("nochange", "unknown"):
                 tag = Diff.no_change if tags == "nochange" else Diff.unknown_change
                 req = Update(chm)
-                f_j = lambda: {k_: v for k_, v in space._edit(key, st.trace, req, tag(jargs)).items() if k_ in ("score", "weight", "retval", "choices")}
-                f_e = lambda: {k_: v for k_, v in space._edit_raw(key, jax.tree_util.tree_map(jnp.asarray, st.trace), req, tag(cargs)).items() if k_ in ("score", "weight", "retval", "choices")}
+                f_j = lambda: {k_: v for k_, v in space._edit(key, st.trace, req, tag(jargs)).items() if k_ in ("score", "weight", "retval", "choices", "discard")}
+                e_tr = eager_trace if eager_trace is not None else jax.tree_util.tree_map(jnp.asarray, st.trace)
+                f_e = lambda: {k_: v for k_, v in space._edit_raw(key, e_tr, req, tag(cargs)).items() if k_ in ("score", "weight", "retval", "choices", "discard")}
                 try:
                     compare("update", tables_for(f_j)[:2], f_j, f_e, gfi.asg_key(c) + tags)
                 except (AssertionError, NotImplementedError):
@@ -227,7 +247,7 @@ def _run(node, tier, seed):
 
 def cases(tier, seed):
     for node in grammar.catalog(tier, continuous=True):
-        if tier == "quick" and node.depth() >= 2 and (hash_name(node.name) % 9):
+        if tier == "quick" and node.depth() >= 2 and (hash_name(node.name) % 15):
             continue
         if tier == "quick" and _n_sites(node) > 6:
             continue
